@@ -26,6 +26,14 @@
 (*                     /res).  Containment is a relation between the       *)
 (*                     joined path and THE directory it was joined onto -  *)
 (*                     deviation CheckedAgainstOneDirectory otherwise.     *)
+(*     /res/lnk        a SYMBOLIC LINK inside resource directory 1 to      *)
+(*                     /dec/pack: the kernel follows it, so "lnk/.." is    *)
+(*                     /dec, not /res.  Paths in this model are resolved   *)
+(*                     (physical) paths; a resource directory that is      *)
+(*                     itself reached through a link is the same directory *)
+(*                     (replayed with CMAP_PATH naming the link).           *)
+(*                     Containment judged on the lexically normalised text *)
+(*                     of the path: deviation LexicalContainment.          *)
 (*     @pkg            resource directory no. 2 (the package's cmap        *)
 (*                     directory), somewhere else: its parent, like the    *)
 (*                     root's parent, is the unknown region "@above" in    *)
@@ -56,25 +64,31 @@ CONSTANTS Dev,        \* subset of AllDev
           CMapSites,  \* subset of {"enc", "cmapname", "usecmap", "regord"}
           ImageCases  \* set of [init: subset of {-1, 0, 1}, draws: 1..2, ext, src] for the image site ({} = not explored)
                       \*   ext: how the image dictionary fills the file name's extension (see ExtKinds)
-                      \*   src: "xobj" (the name is the document's XObject key) | "inline" (the name is not the document's)
+                      \*   src: "xobj" (the name is the document's XObject key) | inline images, whose name is the running
+                      \*   number the interpreter gives them, restarting with every content stream: "inline" (all exports
+                      \*   in ONE content stream: inline0, inline1, ... distinct words) | "inlinepages" (one per page: every
+                      \*   one is inline0) | "inlineform" (one on the page, one in a form XObject it invokes: both inline0)
 
 AllDev == {"CMapNameUnconfined",     \* _load_data joins the name unchecked: any *.pickle.gz can be opened (and unpickled)
            "ImageNameUnconfined",    \* _create_unique_image_name joins the XObject name unchecked
            "ScreenBeforeStrip",      \* containment only tested for names that LOOK dangerous (absolute / contain ..),
                                      \* judged on the raw name before its NULs are removed
+           "InlineNamesAssumedUnique",  \* inline images skip the uniqueness loop ("their running number is unique")
            "NumberingBounded",       \* the uniqueness loop gives up after 100 candidates and opens the last one it BUILT
                                      \* (name.99.ext) without having tested it
            "NormaliseAfterSanitise", \* the image name is NFKC-normalised AFTER separators were replaced: fullwidth solidus and
                                      \* full stop turn into real ones behind the check
            "ExtFieldsUnvalidated",   \* _save_raw builds the extension ".<bits>.<width>x<height>.img" from the image dictionary's
                                      \* entries without insisting that they are integers (%s instead of %d)
+           "LexicalContainment",     \* containment judged on normpath(join(dir, name)) - ".." cancels the component before
+                                     \* it textually - instead of on the path the kernel resolves (symbolic links)
            "CheckedAgainstOneDirectory",  \* the name is validated once, against the package's cmap directory, and then
                                      \* joined onto every directory of the search path
            "ContainmentByCharacters"}   \* "inside the directory" decided on the characters of the real path (startswith /
                                      \* commonprefix without a separator) instead of on its components
 ASSUME Dev \subseteq AllDev
 
-Plain == {"H", "dec", "evil", "sub", "zz", "sib", "res", "cmap"}
+Plain == {"H", "dec", "evil", "sub", "zz", "sib", "res", "cmap", "lnk"}
 \* dd ".."   d "."   e empty   nul "ev<NUL>il"   long 300 bytes
 \* ndd ".<NUL>."  - a dot-dot split by a NUL      n0 "<NUL>" - nothing but a NUL (in front of a "/" it hides the root)
 \* NULs are removed from a CMap name BEFORE the path is built and resolved, so for the lookup ndd IS ".." and a name
@@ -101,10 +115,14 @@ Res == <<"res">>
 Out == <<"out">>
 Sib == <<"sib">>
 PkgParent == <<"@pkgparent">>       \* the directory that holds the package's cmap directory (nothing else of ours is in it)
-Dirs == {Root, Res, <<"res", "sub">>, Out, <<"out", "sub">>, <<"dec">>, Sib, <<"cmap">>, Pkg}
+Dirs == {Root, Res, <<"res", "sub">>, Out, <<"out", "sub">>, <<"dec">>, <<"dec", "pack">>, Sib, <<"cmap">>, Pkg}
+\* symbolic links to directories: where the link is, where it leads
+LinkAt == <<"res", "lnk">>
+LinkTo == <<"dec", "pack">>
 \* existing *.pickle.gz files, by directory and base word
 PickleFiles == {<<Pkg, "H">>,                       \* a genuine character map of the package
                 <<<<"dec">>, "H">>,                 \* a file of the same name outside
+                <<LinkTo, "evil">>,                 \* a file behind the link: reachable as res/lnk/evil, physically outside
                 <<Sib, "evil">>,                    \* a decoy in the look-alike sibling of the resource directory
                 <<<<"cmap">>, "evil">>,             \* a decoy in the directory that is merely NAMED like resource directory 2
                 <<Res, "evil">>, <<<<"res", "sub">>, "evil">>,   \* files inside resource directory 1
@@ -124,10 +142,18 @@ Walk(d, w) == CASE d = Fail -> Fail
                 [] w \in {"d", "e"} -> d
                 [] w = "dd" -> Up(d)
                 [] w \in Plain -> IF d = PkgParent THEN (IF w = "cmap" THEN Pkg ELSE Fail)      \* "../cmap" from @pkg is @pkg
+                                  ELSE IF Append(d, w) = LinkAt THEN LinkTo                     \* the kernel follows the link
                                   ELSE IF d # Above /\ Append(d, w) \in Dirs THEN Append(d, w) ELSE Fail
                 [] OTHER -> Fail          \* over-long component (ENAMETOOLONG), or a word that is not a directory
 RECURSIVE WalkAll(_, _)
 WalkAll(d, s) == IF s = <<>> THEN d ELSE WalkAll(Walk(d, Head(s)), Tail(s))
+
+\* os.path.normpath: ".." removes the component before it as TEXT, whatever that component is on disk
+RECURSIVE LexAll(_, _)
+LexAll(d, s) == IF s = <<>> THEN d
+                ELSE LexAll(CASE Head(s) \in {"d", "e"} -> d
+                              [] Head(s) = "dd" -> (IF d = <<>> THEN d ELSE SubSeq(d, 1, Len(d) - 1))
+                              [] OTHER -> Append(d, Head(s)), Tail(s))
 
 \* os.path.join(directory, name): an absolute name replaces the directory.  A name is absolute when it is flagged so
 \* or when its spelling starts with the separator anyway (an empty first segment followed by another segment)
@@ -189,16 +215,19 @@ ATryDir ==
          looks == hit /\ ~inside /\ LooksInside(d, p) /\ "ContainmentByCharacters" \in Dev
          \* the same name joined onto the package's cmap directory stays inside THAT directory
          pq == ParentDir(Pkg, nm)
+         lexical == hit /\ ~inside /\ "LexicalContainment" \in Dev /\ d = Res
+                    /\ IsPrefix(d, LexAll(IF IsAbs(nm) THEN Root ELSE d, IF nm.segs = <<>> THEN <<>> ELSE Front(nm.segs)))
          onedir == hit /\ ~inside /\ "CheckedAgainstOneDirectory" \in Dev
                    /\ pq \notin {Fail, Above, PkgParent} /\ IsPrefix(Pkg, pq)
          unscreened == hit /\ ~inside /\ "ScreenBeforeStrip" \in Dev
                        /\ ~RawSuspicious(IF site = "regord" THEN Prefixed(name) ELSE name)
-     IN IF hit /\ (inside \/ looks \/ unscreened \/ onedir \/ "CMapNameUnconfined" \in Dev)
+     IN IF hit /\ (inside \/ looks \/ unscreened \/ onedir \/ lexical \/ "CMapNameUnconfined" \in Dev)
         THEN /\ reads' = reads \cup {<<p, FileWord(LastWord(nm))>>}          \* opened, read, unpickled
              /\ blame' = IF inside THEN blame
                          ELSE IF looks THEN blame \cup {"ContainmentByCharacters"}
                          ELSE IF unscreened THEN blame \cup {"ScreenBeforeStrip"}
-                         ELSE IF onedir THEN blame \cup {"CheckedAgainstOneDirectory"} ELSE blame \cup {"CMapNameUnconfined"}
+                         ELSE IF onedir THEN blame \cup {"CheckedAgainstOneDirectory"}
+                         ELSE IF lexical THEN blame \cup {"LexicalContainment"} ELSE blame \cup {"CMapNameUnconfined"}
              /\ phase' = "done" /\ dirs' = <<>>
         ELSE /\ dirs' = Tail(dirs) /\ UNCHANGED <<reads, blame>>
              /\ phase' = IF Tail(dirs) = <<>> THEN "done" ELSE "try"           \* raise CMapNotFound (caught by callers)
@@ -245,7 +274,8 @@ FirstFree(S) == LET k == TrueFirstFree(S) IN IF "NumberingBounded" \in Dev /\ k 
 (* Intended: an entry that is not an integer never reaches a path (%d raises TypeError, nothing is opened).        *)
 IllTyped == icase.ext \in {"illclean", "lead1", "mid1", "leadW"}
 \* the sanitised name as a word: what matters is whether  word ++ "."  is a special component
-NameWord == IF icase.src = "inline" THEN "plain"                 \* str(id(obj)): not the document's
+Inline == icase.src \in {"inline", "inlinepages", "inlineform"}
+NameWord == IF Inline THEN "plain"                               \* inline<k>: not the document's
             ELSE IF name.look # "ascii" /\ name.segs # <<>> THEN "plain"
             ELSE IF name.segs = <<>> \/ name.segs = <<"e">> THEN "empty"
             ELSE IF name.segs = <<"d">> THEN "dot"
@@ -265,15 +295,20 @@ AExport ==
      THEN /\ err' = "OSError" /\ phase' = "done" /\ UNCHANGED <<creates, outfiles, drawn, blame>>      \* File name too long
      ELSE IF Coded /\ OpenError # "none" /\ icase.src = "xobj"  \* (a directory above the root exists: a file is created there)
      THEN /\ err' = OpenError /\ phase' = "done" /\ UNCHANGED <<creates, outfiles, drawn, blame>>
-     ELSE LET T == IF LigSplit /\ icase.src = "xobj" THEN Fail ELSE ExtTarget(IF icase.src = "inline" THEN Out ELSE Target)
+     ELSE LET T == IF LigSplit /\ icase.src = "xobj" THEN Fail ELSE ExtTarget(IF Inline THEN Out ELSE Target)
+              \* which word the file name starts with: exports in one content stream get inline0, inline1, ... ; a new
+              \* content stream starts again at inline0; an XObject keeps its name.  outfiles = occupied candidates of word 0
+              w == IF icase.src = "inline" THEN drawn ELSE 0
+              occ == IF w = 0 THEN outfiles ELSE {}
+              assumed == Inline /\ "InlineNamesAssumedUnique" \in Dev
               \* with a separator in the extension the numbered candidates name.0<ext> ... start with another word
-              k == IF icase.ext \in {"lead1", "mid1", "leadW"} THEN -1 ELSE FirstFree(outfiles)
-          IN IF T = Fail \/ (icase.ext = "lead1" /\ -1 \in outfiles)
+              k == IF icase.ext \in {"lead1", "mid1", "leadW"} \/ assumed THEN -1 ELSE FirstFree(occ)
+          IN IF T = Fail \/ (icase.ext = "lead1" /\ -1 \in occ)
              THEN /\ err' = "FileNotFoundError" /\ phase' = "done" /\ UNCHANGED <<creates, outfiles, drawn, blame>>
-             ELSE /\ creates' = Append(creates, [dir |-> T, k |-> k, existed |-> k \in outfiles])
-                  /\ outfiles' = outfiles \cup {k}
+             ELSE /\ creates' = Append(creates, [dir |-> T, k |-> k, w |-> w, existed |-> k \in occ])
+                  /\ outfiles' = IF w = 0 THEN outfiles \cup {k} ELSE outfiles
                   /\ drawn' = drawn + 1
-                  /\ blame' = IF k \in outfiles THEN blame \cup {"NumberingBounded"}
+                  /\ blame' = IF k \in occ THEN blame \cup (IF assumed THEN {"InlineNamesAssumedUnique"} ELSE {"NumberingBounded"})
                               ELSE IF InOut(T) THEN blame
                               ELSE IF IllTyped THEN blame \cup {"ExtFieldsUnvalidated"}
                               ELSE IF name.look # "ascii" THEN blame \cup {"NormaliseAfterSanitise"}
@@ -290,14 +325,16 @@ Spec == Init /\ [][Next]_vars
 (* The property.                                                           *)
 (***************************************************************************)
 \* every file opened for reading is a resource inside a resource directory (the input is passed in open)
-ReadsConfined == \A r \in reads : InResource(r[1]) \/ blame \cap {"CMapNameUnconfined", "ContainmentByCharacters", "ScreenBeforeStrip", "CheckedAgainstOneDirectory"} # {}
+ReadsConfined == \A r \in reads : InResource(r[1]) \/ blame \cap {"CMapNameUnconfined", "ContainmentByCharacters", "ScreenBeforeStrip", "CheckedAgainstOneDirectory",
+                                                                      "LexicalContainment"} # {}
 \* every file created lies inside the output directory
 WritesConfined == \A k \in 1..Len(creates) : InOut(creates[k].dir) \/ blame \cap {"ImageNameUnconfined", "ExtFieldsUnvalidated", "NormaliseAfterSanitise"} # {}
 \* a path that exists is never opened for writing
-NeverOverwrite == \A k \in 1..Len(creates) : ~creates[k].existed \/ "NumberingBounded" \in blame
+NeverOverwrite == \A k \in 1..Len(creates) : ~creates[k].existed \/ blame \cap {"NumberingBounded", "InlineNamesAssumedUnique"} # {}
 \* two exports never land on the same file
-DistinctNames == \A j, k \in 1..Len(creates) : j # k => <<creates[j].dir, creates[j].k>> # <<creates[k].dir, creates[k].k>>
-                                                            \/ "NumberingBounded" \in blame
+DistinctNames == \A j, k \in 1..Len(creates) :
+                   j # k => \/ <<creates[j].dir, creates[j].w, creates[j].k>> # <<creates[k].dir, creates[k].w, creates[k].k>>
+                            \/ blame \cap {"NumberingBounded", "InlineNamesAssumedUnique"} # {}
 BlameSound == blame \subseteq Dev
 \* the lookup terminates having tried each directory at most once
 LookupBounded == Len(dirs) <= 2
